@@ -25,6 +25,18 @@ Clause -> case family
         filter 0) after a generated pre-history; the main thread feeds
         generated frames one wake-up at a time (or several at once while the
         waiter cannot run) and silence.
+        wait-seq/*: one to three consecutive wait() calls on the SAME consumer
+        of a two-node rig whose condition object is observed, not replaced;
+        frames arrive between the calls (nobody waits), during them, for the
+        other node and on foreign COB-IDs; timed members: the matching frame
+        arrives 0.3 s .. a few seconds after the caller blocked, silence with
+        a time-out of 0.25 s .. a few seconds, and non-matching traffic that
+        goes on far beyond the time-out.
+        wait-multi/*: 2..4 callers with different filters, started at different
+        points of a frame sequence, each handed its own next matching entry.
+      long/*: "any sequence": 300 .. 20 000 (thorough 70 000) frames on two consumers (sparse or
+        no reset frames), counts compared after every frame, the lists in full
+        at checkpoints.
   (e) "a message sent by the producer is decoded by the consumer into the same
       code, register and data (zero-padded to five bytes)"
         roundtrip/* (all registers x all data lengths 0..5, send and reset with
@@ -54,10 +66,22 @@ RULE = ("case kinds: code (one per 16-bit code, exhaustive: description relation
         "expanded from a drawn 64-bit seed by a splitmix64 stream: 1..40 (thorough 80) ops on two consumers: raw 8-byte frames with "
         "codes biased to 0x00xx, xx00/xxFF, 0x01xx..0x0Fxx, registers 0..255, any 5 data bytes, int/float "
         "timestamps; add_callback; reset(); producer send/reset through the bus; foreign COB-IDs), wait "
-        "(pre-history, filter or none, fed bursts, silence). Oracle: list model written from the property text "
+        "(pre-history, filter or none, fed bursts, silence), long (a splitmix64 stream of 300..20 000 frames, thorough 70 000, up to "
+        "5 000 (thorough 33 000) through the bus, for two consumers, without reset frames or with one in ~50/~97/~1000, 0..2 callbacks; the lengths of log/active/"
+        "invocation record are compared after every frame, the full lists at n/4, n/2, n), wait_seq (1..3 consecutive "
+        "wait() calls on one consumer of a two-node rig, the consumer's own condition object observed in place; per call: "
+        "frames delivered before the call while nobody waits, bursts while the caller is blocked made of frames of the "
+        "waited node, of the other node (also with the waited code) and foreign COB-IDs; a pre-history of up to 1 030 (thorough 17 000) frames; "
+        "enumerated timed members: first matching frame 0.3/1.3 s (thorough also 2.5/5.5 s) after the caller blocked with a 20 s "
+        "time-out, silence with time-out 0.25/1.4 s (thorough 3 s), non-matching traffic every ~4 ms against a 50 ms time-out), "
+        "wait_multi (2..4 callers with their own filters start waiting at drawn points of a frame sequence for two nodes; "
+        "each must be handed the first frame of the waited node that matches its filter and arrived after it blocked; "
+        "the generator appends frames until every caller has a match). "
+        "Oracle: list model written from the property text "
         "and the CiA 301 frame layout / error class table. Non-trivial: history or interleaving with an error "
         "before and an error after a reset frame on the same consumer; wait case with a pre-history or >= 2 fed "
-        "frames; roundtrip with 1..4 data bytes (padding visible); code cases are counted as trivial. "
+        "frames; roundtrip with 1..4 data bytes (padding visible); long history with reset frames; wait_seq with >= 2 calls "
+        "or frames of another node or a pre-history; code cases are counted as trivial. "
         "distinct = canonical JSON of the case.")
 ASSUMPTIONS = [
     "an emergency frame has exactly 8 data bytes (CiA 301); shorter frames are outside the property's domain",
@@ -67,8 +91,20 @@ ASSUMPTIONS = [
     "that only reports 'about to wait' (observation only); frames are delivered while the waiter is known to be "
     "blocked, so only 'returned the wrong entry / nothing although a matching frame arrived / something although "
     "none arrived' is decided, never scheduling",
+    "wait/wait_multi: after a frame the feeder waits for as many 'blocked again / returned' reports as waiters were "
+    "notified (threading.Condition semantics), so a library that does not wake a waiter for a frame its filter "
+    "excludes is accepted",
     "wait() expecting a hit uses a 20 s time-out (a return of None within 10 s is 'gave up before the time-out'); "
     "wait() expecting nothing uses 10 ms",
+    "wait_seq: `consumer.emcy_received` is a threading.Condition (property anchor); its wait/notify/notify_all are "
+    "wrapped on the object itself for the duration of the case (observation only: 'about to wait', 'notified'); after "
+    "a burst the feeder waits for the caller to block again only if that condition was notified, so neither 'every "
+    "frame wakes the waiter' nor 'frames of another node never do' is assumed",
+    "timing (only what 'nothing on time-out' says, generous bounds): in silence wait(T) must not return before 0.8 T; "
+    "with only non-matching frames arriving every ~4 ms wait(code, 0.05 s) must have returned nothing within 10 s "
+    "(200 x the time-out; the library's own re-wait allows about 2 x); with a 20 s time-out a matching frame arriving "
+    "0.3..5.5 s after the caller blocked must be handed over; no upper bound on how late a silent time-out is reported "
+    "except the 30 s hang guard",
     "description relation: a code inside a CiA 301 class must carry that class's keyword; a code outside every "
     "class may have an empty description or one of a class sharing its high nibble (0x01xx..0x0Fxx: must not be "
     "described as error reset, they are not reset frames)",
@@ -477,10 +513,15 @@ class _ProbeCondition(threading.Condition):
     def __init__(self, q):
         super().__init__()
         self._verif_q = q
+        self.notifies = 0
 
     def wait(self, timeout=None):
         self._verif_q.put("enter")
         return super().wait(timeout)
+
+    def notify(self, n=1):          # notify_all() comes through here as well
+        self.notifies += 1
+        return super().notify(n)
 
 
 def _wait_plan(case):
@@ -548,15 +589,20 @@ def _run_wait(case):
     th.start()
     fed = []
     stuck = False
+    armed = False
     try:
         for burst in case["feed"]:
-            try:
-                ev = q.get(timeout=GUARD)
-            except queue.Empty:
-                stuck = True
-                break
-            if ev == "done":
-                break
+            # after a burst that did not notify the condition the waiter is still blocked
+            # (a library need not wake a waiter for a frame its filter excludes)
+            if not armed:
+                try:
+                    ev = q.get(timeout=GUARD)
+                except queue.Empty:
+                    stuck = True
+                    break
+                if ev == "done":
+                    break
+            n0 = cond.notifies
             if len(burst) > 1:
                 with cond:                      # waiter is blocked in wait(); it cannot run before all are logged
                     for f in burst:
@@ -565,6 +611,7 @@ def _run_wait(case):
                 with cond:
                     pass
                 fed.append(deliver(burst[0]))
+            armed = cond.notifies == n0
     except Exception as e:
         D.append(Discrepancy("C16/raises/frame", f"delivering while a caller waits: {type(e).__name__}: {e}"))
     th.join(GUARD + 3 * timeout)
@@ -682,6 +729,437 @@ def _run_wait_many(case):
     return Outcome(True, f"wait-many/{n}", D)
 
 
+# ---- long histories ------------------------------------------------------------------
+def expand_long(seed, n, reset_every):
+    """(node index, code, register, data, timestamp) x n from one seed.  reset_every = 0: no
+    reset frame at all (active == log), else about one frame in `reset_every` is a reset."""
+    r = _Prng(seed)
+    for i in range(n):
+        node = 0 if r.below(4) else 1
+        if reset_every and r.below(reset_every) == 0:
+            code = r.below(0x100)
+        else:
+            code = _code_from(r)
+            if code < 0x100:
+                code += 0x100           # 0x0100..0x01FF: not a reset frame
+        rd = r.next().to_bytes(8, "little")
+        ts = i + 1 if r.below(4) else _ts(r.below(2 ** 36))
+        yield node, code, rd[0], rd[1:6], ts
+
+
+def _run_long(case):
+    """'For ANY sequence of emergency frames': sequences far longer than the other families
+    produce (a capped / rotating log or active list, a counter that wraps)."""
+    rig = Rig(case["rig"], case["ids"])
+    for k in range(case.get("cbs", 0)):
+        rig.add_callback(k % len(case["ids"]))
+    n = case["n"]
+    every = case.get("reset_every", 0)
+    full = {max(1, n // 4), max(1, n // 2), n}
+    D = []
+    i = 0
+    for i, (node, code, reg, data, ts) in enumerate(expand_long(case["seed"], n, every), 1):
+        wire = ref_encode(code, reg, data)
+        tag = f"frame {i} of {n} ({wire.hex()} for node {rig.ids[node]})"
+        try:
+            ts = rig.raw_frame(node, wire, ts)
+        except Exception as e:
+            D.append(Discrepancy("C16/raises/frame", f"{tag}: {type(e).__name__}: {e}"))
+            break
+        m = rig.models[node]
+        m.frame((code, reg, data, ts))
+        c = rig.consumers[node]
+        try:
+            same = (len(c.log) == len(m.log) and len(c.active) == len(m.active)
+                    and len(rig.calls[node]) == len(m.calls))
+        except Exception:
+            same = False
+        if same and i not in full:
+            continue
+        errs = rig.bus_errors()
+        if errs:
+            fr, e = errs[0]
+            D.append(Discrepancy("C16/raises/notify", f"{tag}: delivering {fr} raised {type(e).__name__}: {e}"))
+            break
+        _compare(rig, D, tag, is_reset(code))
+        if D:
+            break
+    size = "<=1000" if n <= 1000 else "<=10000" if n <= 10000 else ">10000"
+    klass = f"long/{case['rig']}/frames{size}/" + ("with-resets" if every else "errors-only")
+    return Outcome(bool(every), klass, D)
+
+
+# ---- consecutive waits, second node, timing ------------------------------------------
+NO_TIMEOUT_BOUND = 10.0     # s; wait(code, 0.05) under steady non-matching traffic
+FLOOD_TIMEOUT = 0.05
+FLOOD_PACE = 0.004
+
+
+class _Probe:
+    """Observes the condition object a consumer ALREADY has (it is not replaced, so a
+    condition that is shared between consumers stays shared): reports 'about to wait' and
+    counts notifications.  wait() is entered with the lock held and the lock is only released
+    inside the original wait once the caller is registered as a waiter: a feeder that
+    acquires the condition after seeing 'enter' knows the waiter is blocked."""
+
+    def __init__(self, cond):
+        self.cond = cond
+        self.q = queue.Queue()
+        self.notifies = 0
+        self.woken = 0
+        orig_wait, orig_notify, orig_notify_all = cond.wait, cond.notify, cond.notify_all
+
+        def wait(timeout=None):
+            self.q.put("enter")
+            return orig_wait(timeout)
+
+        def notify(n=1):
+            self.notifies += 1
+            # threading.Condition.notify wakes min(n, number of registered waiters) threads
+            self.woken += min(n, len(getattr(cond, "_waiters", ())))
+            return orig_notify(n)
+
+        def notify_all():
+            self.notifies += 1
+            return orig_notify_all()
+        cond.wait, cond.notify, cond.notify_all = wait, notify, notify_all
+
+    def remove(self):
+        for name in ("wait", "notify", "notify_all"):
+            self.cond.__dict__.pop(name, None)
+
+
+def _first_match(call):
+    """Index (in feed order, all frames counted) of the first frame of the WAITED node that
+    matches the filter, or None."""
+    pos = 0
+    for b in call["feed"]:
+        for f in b:
+            if f.get("node", 0) == 0 and (call["filter"] is None or f["code"] == call["filter"]):
+                return pos
+            pos += 1
+    return None
+
+
+def _run_wait_seq(case):
+    rig = Rig(case.get("rig", "direct"), case["ids"])
+    for k in range(case.get("cbs", 0)):
+        rig.add_callback(k % 2)
+    consumer = rig.consumers[0]
+    probe = _Probe(consumer.emcy_received)
+    try:
+        return _wait_seq_body(case, rig, consumer, probe)
+    finally:
+        probe.remove()
+
+
+def _wait_seq_body(case, rig, consumer, probe):
+    D = []
+    cond = probe.cond
+    seq = [0]
+
+    def deliver(f):
+        """One frame: of the waited node (node 0), of the other node (1) or a foreign COB-ID."""
+        seq[0] += 1
+        ts = 1000 + seq[0]
+        node = f.get("node", 0)
+        if node == "noise":
+            if rig.kind == "bus":
+                rig.hub.inject(Frame(f["can_id"], ref_encode(f["code"], f["reg"], bytes(f["data"])), ts=ts))
+            return None
+        data = bytes(f["data"])
+        rig.raw_frame(node, ref_encode(f["code"], f["reg"], data), ts)
+        fields = (f["code"], f["reg"], data, ts)
+        rig.models[node].frame(fields)
+        return fields
+
+    nlong = case.get("pre_long", 0)
+    if nlong:
+        for node, code, reg, data, _ in expand_long(case.get("seed", 1), nlong, 50):
+            deliver({"node": node, "code": code, "reg": reg, "data": data})
+    for f in case["pre"]:
+        deliver(f)
+
+    tags = set()
+    if nlong:
+        tags.add("long-pre")
+    elif case["pre"]:
+        tags.add("pre")
+    for ci, call in enumerate(case["calls"]):
+        filt = call["filter"]
+        flood = call.get("flood")
+        expect_i = None if flood else _first_match(call)
+        try:
+            for f in call.get("gap", []):
+                deliver(f)
+        except Exception as e:
+            D.append(Discrepancy("C16/raises/frame", f"delivering while nobody waits: {type(e).__name__}: {e}"))
+            break
+        if call.get("gap"):
+            tags.add("between-calls")
+        start_seq = seq[0]
+        timeout = call.get("timeout") or (FLOOD_TIMEOUT if flood else
+                                          HIT_TIMEOUT if expect_i is not None else MISS_TIMEOUT)
+        form = call.get("form", "pos")
+        box = {}
+        done = threading.Event()
+        q = probe.q = queue.Queue()
+
+        def waiter():
+            t0 = time.monotonic()
+            try:
+                if form == "kw":
+                    box["res"] = consumer.wait(emcy_code=filt, timeout=timeout)
+                elif form == "timeout_only" and filt is None:
+                    box["res"] = consumer.wait(timeout=timeout)
+                else:
+                    box["res"] = consumer.wait(filt, timeout)
+            except BaseException as e:  # noqa: judged below
+                box["exc"] = e
+            box["elapsed"] = time.monotonic() - t0
+            done.set()
+            q.put("done")
+
+        th = threading.Thread(target=waiter, name="c16-waiter", daemon=True)
+        th.start()
+        stuck = False
+        want = None
+        returned_before_match = False
+        still_blocked = False
+        nfed = 0
+        try:
+            if flood:
+                tags.add("traffic-beyond-timeout")
+                try:
+                    q.get(timeout=2.0)
+                except queue.Empty:
+                    pass
+                t0 = time.monotonic()
+                j = 0
+                while not done.is_set():
+                    if time.monotonic() - t0 > NO_TIMEOUT_BOUND:
+                        still_blocked = True
+                        break
+                    deliver(flood[j % len(flood)])
+                    j += 1
+                    nfed += 1
+                    time.sleep(FLOOD_PACE)
+            else:
+                armed = False
+                finished = False
+                pos = 0
+                for bi, burst in enumerate(call["feed"]):
+                    if not armed and not finished:
+                        try:
+                            ev = q.get(timeout=GUARD)
+                        except queue.Empty:
+                            stuck = True
+                            break
+                        if ev == "done":
+                            finished = True
+                        else:
+                            armed = True
+                    if bi == 0 and call.get("delay") and not finished:
+                        tags.add("delayed")
+                        time.sleep(call["delay"])
+                    if done.is_set():
+                        finished = True
+                    n0 = probe.notifies
+                    # waiter (if any) is blocked in wait(): it cannot run before the whole burst is logged
+                    with cond:
+                        if len(burst) == 1:
+                            pass
+                        else:
+                            for f in burst:
+                                if pos == expect_i:
+                                    returned_before_match = done.is_set()
+                                got_f = deliver(f)
+                                if pos == expect_i:
+                                    want = got_f
+                                pos += 1
+                    if len(burst) == 1:
+                        if pos == expect_i:
+                            returned_before_match = done.is_set()
+                        got_f = deliver(burst[0])
+                        if pos == expect_i:
+                            want = got_f
+                        pos += 1
+                    nfed += len(burst)
+                    if any(f.get("node", 0) != 0 for f in burst):
+                        tags.add("other-node")
+                    if probe.notifies != n0:
+                        armed = False
+        except Exception as e:
+            D.append(Discrepancy("C16/raises/frame", f"delivering while a caller waits: {type(e).__name__}: {e}"))
+        th.join(GUARD + 3 * timeout)
+        what = (f"call {ci + 1} of {len(case['calls'])}: wait({'0x%04X' % filt if filt is not None else None}, "
+                f"timeout {timeout}) on node {rig.ids[0]} after {start_seq} earlier frames"
+                + (f", non-matching traffic {[hex(f['code']) + '@' + str(f.get('node', 0)) for f in flood]} every "
+                   f"{FLOOD_PACE}s" if flood else
+                   f", fed {[[hex(f['code']) + '@' + str(f.get('node', 0)) for f in b] for b in call['feed']]}")
+                + (f" starting {call['delay']}s after the caller blocked" if call.get("delay") else ""))
+        if D:
+            break
+        if th.is_alive() or stuck:
+            if still_blocked:
+                D.append(Discrepancy("C16/wait/no-timeout-under-traffic",
+                                     f"{what}: still waiting after {NO_TIMEOUT_BOUND}s ({nfed} frames, none matching)"))
+            else:
+                D.append(Discrepancy("C16/wait/hang", f"{what}: neither blocks on emcy_received nor returns within "
+                                     f"{GUARD}s after {nfed} fed frames"))
+            break
+        if "exc" in box:
+            e = box["exc"]
+            D.append(Discrepancy("C16/wait/raises", f"{what}: raised {type(e).__name__}: {e}"))
+            break
+        res = box["res"]
+        try:
+            got = None if res is None else _fields(res)
+        except Exception as e:
+            D.append(Discrepancy("C16/wait/result-type", f"{what}: returned {res!r}: {type(e).__name__}: {e}"))
+            break
+        own = rig.models[0].log
+        if got is not None and got[3] <= 1000 + start_seq:
+            D.append(Discrepancy("C16/wait/stale-entry", f"{what}: returned {_show(got)}, which arrived before the "
+                                 f"call; want {_show(want) if want else None}"))
+        elif still_blocked:
+            D.append(Discrepancy("C16/wait/no-timeout-under-traffic",
+                                 f"{what}: returned only after the traffic stopped ({box['elapsed']:.2f}s, {nfed} "
+                                 f"frames, none matching); want nothing on time-out"))
+        elif expect_i is None:
+            if got is not None:
+                sig = "non-matching-entry" if got in own else "foreign-entry"
+                D.append(Discrepancy(f"C16/wait/{sig}", f"{what}: returned {_show(got)}, want None (no matching "
+                                     f"frame of this node arrived after the call)"))
+            elif call.get("timeout") and not call["feed"] and not flood and box["elapsed"] < 0.8 * timeout:
+                D.append(Discrepancy("C16/wait/gave-up-early", f"{what}: returned None after {box['elapsed']:.3f}s "
+                                     f"of silence, before the time-out"))
+        elif got is None:
+            if returned_before_match or want is None:
+                sig = "gave-up-early" if box["elapsed"] < timeout / 2 else "missed"
+                D.append(Discrepancy(f"C16/wait/{sig}", f"{what}: returned None after {box['elapsed']:.3f}s, before "
+                                     f"the matching frame arrived"))
+            else:
+                D.append(Discrepancy("C16/wait/missed", f"{what}: returned None after {box['elapsed']:.3f}s although "
+                                     f"{_show(want)} arrived while waiting"))
+        elif got != want:
+            if got not in own:
+                sig = "foreign-entry"
+            elif filt is not None and got[0] != filt:
+                sig = "non-matching-entry"
+            else:
+                sig = "not-the-next-entry"
+            D.append(Discrepancy(f"C16/wait/{sig}", f"{what}: returned {_show(got)} want "
+                                 f"{_show(want) if want else 'the first matching frame fed'}"))
+        if D:
+            break
+        errs = rig.bus_errors()
+        if errs:
+            fr, e = errs[0]
+            D.append(Discrepancy("C16/raises/notify", f"{what}: delivering {fr} raised {type(e).__name__}: {e}"))
+            break
+        _compare(rig, D, what, False)
+        if D:
+            break
+    ncalls = len(case["calls"])
+    klass = f"wait-seq/{case.get('rig', 'direct')}/calls{ncalls}" + "".join("/" + t for t in sorted(tags))
+    nontrivial = ncalls >= 2 or "other-node" in tags or bool(case["pre"]) or bool(nlong)
+    return Outcome(nontrivial, klass, D)
+
+
+def _run_wait_multi(case):
+    """Several callers with their OWN filters wait on one consumer, started at different points
+    of a frame sequence: each is handed the first frame of that node that matches its filter and
+    arrived after it blocked.  The generator closes every case with frames that satisfy all
+    callers, so on a conforming library nobody runs into the time-out."""
+    rig = Rig(case.get("rig", "direct"), case["ids"])
+    probe = _Probe(rig.consumers[0].emcy_received)
+    try:
+        return _wait_multi_body(case, rig, rig.consumers[0], probe)
+    finally:
+        probe.remove()
+
+
+def _wait_multi_body(case, rig, consumer, probe):
+    D = []
+    cond, q = probe.cond, probe.q
+    callers = []
+    nseq = 0
+    klass = f"wait-multi/{case.get('rig', 'direct')}/callers{sum(1 for o in case['ops'] if o['op'] == 'call')}"
+    for op in case["ops"]:
+        if op["op"] == "call":
+            c = {"filter": op["filter"], "start": nseq, "box": {}, "done": threading.Event(), "want": None,
+                 "n": len(callers)}
+
+            def waiter(c=c):
+                try:
+                    c["box"]["res"] = consumer.wait(c["filter"], HIT_TIMEOUT)
+                except BaseException as e:  # noqa: judged below
+                    c["box"]["exc"] = e
+                c["done"].set()
+                q.put("done")
+            c["th"] = threading.Thread(target=waiter, name="c16-waiter", daemon=True)
+            c["th"].start()
+            callers.append(c)
+            nev = 1
+        else:
+            nseq += 1
+            ts = 1000 + nseq
+            node = op.get("node", 0)
+            data = bytes(op["data"])
+            fields = (op["code"], op["reg"], data, ts)
+            for c in callers:
+                if node == 0 and c["want"] is None and (c["filter"] is None or c["filter"] == op["code"]):
+                    c["want"] = fields
+            w0 = probe.woken
+            try:
+                with cond:      # every pending caller is registered as a waiter
+                    pass
+                rig.raw_frame(node, ref_encode(op["code"], op["reg"], data), ts)
+            except Exception as e:
+                D.append(Discrepancy("C16/raises/frame", f"delivering while callers wait: {type(e).__name__}: {e}"))
+                return Outcome(True, klass, D)
+            rig.models[node].frame(fields)
+            nev = probe.woken - w0
+        # every caller that was started or woken reports once: blocked (again) or returned
+        for _ in range(nev):
+            try:
+                q.get(timeout=GUARD)
+            except queue.Empty:
+                D.append(Discrepancy("C16/wait/hang", f"{len(callers)} callers, filters "
+                                     f"{[c['filter'] for c in callers]}: a caller neither blocks on emcy_received "
+                                     f"nor returns within {GUARD}s"))
+                return Outcome(True, klass, D)
+        with cond:
+            pass
+    # all wake-ups have been accounted for: a caller that has not returned by now will not be served
+    for c in callers:
+        if c["want"] is None:
+            raise ValueError("generator must close the case with a frame for every caller")
+        who = (f"caller {c['n'] + 1} of {len(callers)} (filters "
+               f"{['0x%04X' % x['filter'] if x['filter'] is not None else None for x in callers]}, its wait started "
+               f"after {c['start']} of the frames {[hex(o['code']) + '@' + str(o.get('node', 0)) for o in case['ops'] if o['op'] == 'frame']})")
+        if not c["done"].is_set():
+            D.append(Discrepancy("C16/wait/concurrent-caller-not-served",
+                                 f"{who}: still waiting although {_show(c['want'])} arrived"))
+            break
+        if "exc" in c["box"]:
+            e = c["box"]["exc"]
+            D.append(Discrepancy("C16/wait/raises", f"{who}: {type(e).__name__}: {e}"))
+            break
+        res = c["box"]["res"]
+        got = None if res is None else _fields(res)
+        if got != c["want"]:
+            sig = ("concurrent-caller-not-served" if got is None else
+                   "stale-entry" if got[3] <= 1000 + c["start"] else
+                   "non-matching-entry" if c["filter"] is not None and got[0] != c["filter"] else "not-the-next-entry")
+            D.append(Discrepancy(f"C16/wait/{sig}", f"{who}: got {_show(got) if got else None} want {_show(c['want'])}"))
+            break
+    if not D:
+        _compare(rig, D, "after all callers returned", False)
+    return Outcome(True, klass, D)
+
+
 def run_case(case) -> Outcome:
     kind = case["kind"]
     if kind == "code":
@@ -690,6 +1168,12 @@ def run_case(case) -> Outcome:
         return _run_wait(case)
     if kind == "wait_many":
         return _run_wait_many(case)
+    if kind == "wait_seq":
+        return _run_wait_seq(case)
+    if kind == "wait_multi":
+        return _run_wait_multi(case)
+    if kind == "long":
+        return _run_long(case)
     return _run_history(case)
 
 
@@ -972,12 +1456,206 @@ def wait_case(draw):
             "form": draw(st.sampled_from(["pos", "kw", "timeout_only"]))}
 
 
+def long_enum(thorough):
+    """(n, rig, reset_every, callbacks).  n beyond 256 / 1024 / 4096 / 16384 (thorough 65536): sizes somebody would
+    pick for a bounded log; reset_every 0 keeps every entry active."""
+    plan = [(300, "direct", 0, 1), (300, "bus", 97, 2), (1000, "bus", 0, 0), (1000, "direct", 50, 2),
+            (5000, "direct", 1000, 1), (5000, "bus", 0, 1), (20000, "direct", 0, 0)]
+    if thorough:
+        # one case stays at a few seconds of CPU at most (the runner's watchdog allows a single case 120 s wall)
+        plan += [(20000, "bus", 0, 1), (20000, "direct", 97, 2), (70000, "direct", 1000, 1), (33000, "bus", 0, 0),
+                 (70000, "direct", 0, 1), (2100, "direct", 0, 2), (2100, "bus", 50, 1), (10100, "direct", 0, 2),
+                 (33000, "direct", 97, 0), (10100, "bus", 1000, 1), (600, "bus", 0, 2)]
+    for i, (n, rig, every, cbs) in enumerate(plan):
+        yield {"kind": "long", "rig": rig, "ids": [1 + (7 * i) % 126, 127], "seed": 0xC16 + i, "n": n,
+               "reset_every": every, "cbs": cbs}
+
+
+def long_st(maxn):
+    return st.builds(
+        lambda seed, n, rig, every, cbs, a: {"kind": "long", "rig": rig, "ids": [a, 127], "seed": seed, "n": n,
+                                             "reset_every": every, "cbs": cbs},
+        st.integers(0, 2 ** 64 - 1), st.integers(81, maxn), st.sampled_from(["direct", "bus"]),
+        st.sampled_from([0, 0, 7, 50, 300]), st.integers(0, 2), st.integers(1, 126))
+
+
+def _on(f, node, **kw):
+    g = dict(f)
+    g["node"] = node
+    g.update(kw)
+    return g
+
+
+def wait_seq_enum(thorough):
+    X, Y, Z = 0x2001, 0x9000, 0x0000
+    i = 0
+    rig = None
+
+    def case(calls, pre=(), **kw):
+        nonlocal i
+        i += 1
+        c = {"kind": "wait_seq", "rig": rig or ("bus" if i % 2 else "direct"), "ids": [1 + (11 * i) % 126, 127],
+             "cbs": i % 3, "pre": list(pre), "calls": calls}
+        c.update(kw)
+        return c
+
+    def call(filt, feed, gap=(), **kw):
+        c = {"filter": filt, "form": ("pos", "kw", "timeout_only")[(i + len(feed)) % 3], "gap": list(gap), "feed": feed}
+        c.update(kw)
+        return c
+    # consecutive calls on one consumer; frames arrive while nobody waits
+    for f1 in (None, X):
+        for f2 in (None, X, Y):
+            for rig in ("direct", "bus"):
+                yield case([call(f1, [[_wf(X)]]), call(f2, [], gap=[_wf(Y, 1)])])
+                yield case([call(f1, [[_wf(X)]]), call(f2, [], gap=[_wf(Y, 1), _wf(X, 2), _wf(Z, 3)])])
+                yield case([call(f1, [[_wf(Y), _wf(X)], [_wf(Y, 5)]]), call(f2, [[_wf(Y, 4)], [_wf(X, 4)]], gap=[_wf(X, 2)]),
+                            call(f2, [], gap=[_wf(Y, 6)])], pre=[_wf(X, 7)])
+                yield case([call(f2, [[_wf(Z)]]), call(f1, [[_wf(X, 1)]], gap=[_wf(X, 2), _wf(Y, 2)]),
+                            call(f2, [[_wf(0x2101)]], gap=[_wf(Y, 3)])])
+    # a second node (and foreign COB-IDs) is active while the caller waits on the first
+    noise = {"node": "noise", "can_id": 0x80, "code": X, "reg": 1, "data": bytes(5)}
+    noise2 = {"node": "noise", "can_id": 0xFE, "code": X, "reg": 1, "data": bytes(5)}
+    for filt in (None, X):
+        for rig in ("direct", "bus"):
+            yield case([call(filt, [[_on(_wf(Y), 1)], [_wf(X)]])])
+            yield case([call(filt, [[_on(_wf(X, 3), 1)], [_on(_wf(Z), 1)], [_wf(X)]])])
+            yield case([call(filt, [[_on(_wf(X, 3), 1), _on(_wf(Y), 1)], [noise], [_wf(X)]])])
+            yield case([call(filt, [[_on(_wf(X, 3), 1), _wf(X), _on(_wf(X, 4), 1)]])])
+            yield case([call(filt, [[noise2], [_on(_wf(X, 1), 1)], [_wf(X, 2)]]),
+                        call(filt, [[_on(_wf(X, 3), 1)], [_wf(X, 4)]], gap=[_on(_wf(X, 5), 1), _wf(Y)])],
+                       pre=[_on(_wf(X), 1)])
+            yield case([call(X, [[_on(_wf(X, 1), 1)], [_on(_wf(X, 2), 1), noise]])])        # nothing for the waited node
+            yield case([call(X, [[_wf(Y)], [_on(_wf(X, 1), 1)], [_wf(Z)], [_on(_wf(X, 2), 1)], [_wf(X)]])])
+    rig = None      # alternating from here on
+    # a long log before the call
+    for n in (300, 1030) + ((4200, 17000) if thorough else ()):
+        for filt in (None, X):
+            yield case([call(filt, [[_wf(Y)], [_wf(X)]]), call(filt, [[_wf(X, 1)]], gap=[_wf(X, 2)])],
+                       pre_long=n, seed=n + 1)
+    # timing: the matching frame arrives late but well within the time-out
+    for d in (0.3, 1.3) + ((2.5, 5.5) if thorough else ()):
+        yield case([call(X if i % 2 else None, [[_wf(X)]], delay=d)])
+        if thorough:
+            yield case([call(X, [[_on(_wf(X, 1), 1)], [_wf(X)]], delay=d), call(None, [[_wf(Y)]], gap=[_wf(Y, 1)], delay=d / 2)])
+    # timing: silence, nothing may be reported before the time-out
+    for t in (0.25, 1.4) + ((3.0,) if thorough else ()):
+        yield case([call(X if i % 2 else None, [], timeout=t)])
+        if thorough:
+            yield case([call(None, [[_wf(X)]]), call(None, [], gap=[_wf(X, 1)], timeout=t)])
+    # timing: non-matching traffic goes on far beyond the time-out
+    for rig in ("direct", "bus"):
+        yield case([call(X, [], flood=[_wf(Y)])])
+        yield case([call(X, [], flood=[_wf(Y), _wf(Z), _on(_wf(X, 1), 1)])])
+        yield case([call(Z, [], flood=[_wf(0x0100), _wf(X)]), call(None, [[_wf(X)]])], pre=[_wf(Z)])
+
+
+@st.composite
+def wait_seq_case(draw):
+    pool = draw(st.lists(codes_st(), min_size=1, max_size=3, unique=True))
+    code = st.sampled_from(pool)
+    rig = draw(st.sampled_from(["direct", "bus"]))
+    a = draw(st.integers(1, 126))
+    nodes = [0, 0, 0, 1, 1] + (["noise"] if rig == "bus" else [])
+
+    def mk(c, r, d, node):
+        f = {"code": c, "reg": r, "data": d, "node": node}
+        if node == "noise":
+            nid = (a + 1 + r % 125) % 128           # a COB-ID 0x80..0xFF that is not one of the two nodes' EMCY ids
+            f["can_id"] = 0x80 + (0 if nid in (a, 127) else nid)
+        return f
+    frame = st.builds(mk, code, st.integers(0, 255), st.binary(min_size=5, max_size=5), st.sampled_from(nodes))
+    own = st.builds(mk, code, st.integers(0, 255), st.binary(min_size=5, max_size=5), st.just(0))
+    pre = draw(st.lists(frame, max_size=3))
+    calls = []
+    for _ in range(draw(st.integers(1, 3))):
+        gap = draw(st.lists(frame, max_size=2))
+        if draw(st.integers(0, 7)) == 0:
+            feed = []
+        else:
+            feed = draw(st.lists(st.lists(frame, min_size=1, max_size=3), min_size=1, max_size=3))
+            if draw(st.integers(0, 2)):
+                feed.append([draw(own)])         # most calls end in a frame of the waited node
+        calls.append({"filter": draw(st.one_of(st.none(), code, code, st.just(0))),
+                      "form": draw(st.sampled_from(["pos", "kw", "timeout_only"])), "gap": gap, "feed": feed})
+    c = {"kind": "wait_seq", "rig": rig, "ids": [a, 127], "cbs": draw(st.integers(0, 2)), "pre": pre, "calls": calls}
+    nlong = draw(st.sampled_from([0, 0, 0, 0, 0, 0, 0, 257, 300, 1030]))
+    if nlong:
+        c["pre_long"] = nlong
+        c["seed"] = draw(st.integers(0, 2 ** 32))
+    return c
+
+
+def _close_multi(ops):
+    """Append frames of the waited node until every caller has a match after its start."""
+    pending = []
+    for o in ops:
+        if o["op"] == "call":
+            pending.append(o["filter"])
+        elif o.get("node", 0) == 0:
+            pending = [f for f in pending if f is not None and f != o["code"]]
+    out = list(ops)
+    k = 0
+    while pending:
+        code = next((f for f in pending if f is not None), 0x1000)
+        k += 1
+        out.append({"op": "frame", "node": 0, "code": code, "reg": k, "data": bytes([k, 0, 0, 0, 0xEE])})
+        pending = [f for f in pending if f is not None and f != code]
+    return out
+
+
+def wait_multi_enum():
+    X, Y, Z = 0x2001, 0x9000, 0x0000
+
+    def fr(code, k=0, node=0):
+        f = _on(_wf(code, k), node)
+        f["op"] = "frame"
+        return f
+
+    def call(f):
+        return {"op": "call", "filter": f}
+    plans = [
+        [call(X), call(Y), fr(X), fr(Y)], [call(Y), call(X), fr(X), fr(Y)], [call(X), call(Y), fr(Y), fr(X)],
+        [call(X), call(None), fr(Y), fr(X)], [call(None), call(X), fr(Y, 1), fr(Y, 2), fr(X)],
+        [call(X), fr(Y), call(Y), fr(Y, 1), fr(X)], [call(X), fr(X, 1, 1), call(Y), fr(Y, 1, 1), fr(X), fr(Y)],
+        [call(Z), call(X), call(Y), fr(X), fr(Y), fr(Z)], [call(X), call(X), call(Y), fr(Z), fr(Y), fr(X)],
+        [call(Y), fr(X), call(None), call(X), fr(Z), fr(X, 1), fr(Y)],
+        [call(X), call(Y), call(Z), call(None), fr(0x0100), fr(Z), fr(Y), fr(X)],
+    ]
+    for i, ops in enumerate(plans):
+        for rig in ("direct", "bus"):
+            yield {"kind": "wait_multi", "rig": rig, "ids": [1 + (13 * i) % 126, 127], "ops": _close_multi(ops)}
+
+
+@st.composite
+def wait_multi_case(draw):
+    pool = draw(st.lists(codes_st(), min_size=2, max_size=3, unique=True))
+    code = st.sampled_from(pool)
+    filt = st.one_of(code, code, code, st.none())
+    call = st.builds(lambda f: {"op": "call", "filter": f}, filt)
+    frame = st.builds(lambda c, r, d, n: {"op": "frame", "node": n, "code": c, "reg": r, "data": d},
+                      code, st.integers(0, 255), st.binary(min_size=5, max_size=5), st.sampled_from([0, 0, 0, 1]))
+    ops = [draw(call)] + draw(st.lists(st.one_of(call, frame, frame), min_size=1, max_size=8))
+    ncalls = 0
+    kept = []
+    for o in ops:
+        if o["op"] == "call":
+            ncalls += 1
+            if ncalls > 4:
+                continue
+        kept.append(o)
+    return {"kind": "wait_multi", "rig": draw(st.sampled_from(["direct", "bus"])), "ids": [draw(st.integers(1, 126)), 127],
+            "ops": _close_multi(kept)}
+
+
 def _showcase():
     yield {"kind": "code", "code": 0x8130}
     yield expand_history(4, 14)
     yield next(c for c in wait_enum() if c["pre"] and len(c["feed"]) == 3 and c["filter"] == 0x2001)
     yield next(c for c in roundtrips() if len(c["ops"][-1]["data"]) == 3)
     yield next(c for i, c in enumerate(interleavings(4)) if i == 15)
+    yield next(c for c in wait_seq_enum(False) if len(c["calls"]) == 3)
+    yield next(long_enum(False))
 
 
 def _spread(cases, nshards):
@@ -998,6 +1676,11 @@ def search(ctx):
     ctx.enumerate(wait_enum(), "wait: 3 pre-histories x 12 feed shapes x 4 filters")
     ctx.enumerate(wait_many_enum(), "wait: 2..4 concurrent callers x filter mixes, one matching frame")
     ctx.enumerate(roundtrips(), "producer round trip: every register x data length 0..5 x send/reset")
+    ctx.enumerate(wait_multi_enum(), "wait: 2..4 concurrent callers with different filters started at different points "
+                  "of a frame sequence, 11 plans x 2 rigs")
+    ctx.enumerate(long_enum(thorough), "long histories: 300..20000 frames (thorough ..70000), with and without resets")
+    ctx.enumerate(wait_seq_enum(thorough), "wait: consecutive calls on one consumer / a second node and foreign COB-IDs "
+                  "active / long log / late match, silence and endless non-matching traffic against the time-out")
     ctx.enumerate(({"kind": "code", "code": c} for c in range(0x10000)),
                   "all 65536 codes: description, decode, reset classification")
     # the bulk (seed-expanded histories, cheapest per case) comes last and in chunks, so that a
@@ -1005,6 +1688,12 @@ def search(ctx):
     ctx.hypothesis(history(60 if thorough else 30), 2500 if thorough else 500, salt=1)
     if not ctx.over_budget():
         ctx.hypothesis(wait_case(), 1000 if thorough else 250, salt=2)
+    if not ctx.over_budget():
+        ctx.hypothesis(wait_seq_case(), 800 if thorough else 200, salt=3)
+    if not ctx.over_budget():
+        ctx.hypothesis(wait_multi_case(), 600 if thorough else 150, salt=5)
+    if not ctx.over_budget():
+        ctx.hypothesis(long_st(6000 if thorough else 1500), 60 if thorough else 15, salt=4)
     for chunk in range(8 if thorough else 2):
         if ctx.over_budget():
             break
